@@ -217,13 +217,13 @@ type Rendered struct {
 }
 
 type lineWriter struct {
-	out     *Rendered
-	cur     strings.Builder
-	line    int
-	entry   int
-	pidx    int
-	eol     string
-	all     strings.Builder
+	out   *Rendered
+	cur   strings.Builder
+	line  int
+	entry int
+	pidx  int
+	eol   string
+	all   strings.Builder
 }
 
 func u16len(s string) int {
